@@ -749,6 +749,30 @@ class ExcAnalysis:
         constant that is one of its keys; (b) a dict that has an entry for every member of an enum (a display listing all
         members, or `{m: ... for m in E}`), never shrunk, looked up with a value of that enum type."""
         prog = self.prog
+        if isinstance(recv, ast.Attribute) and isinstance(recv.value, ast.Name) and recv.value.id in ('self', 'cls') and fn.cls is not None:
+            # a class-level table (`self._BUILDERS[key]`): a dict display in the class body with an entry for every member of
+            # the enum the key has, that nothing in the package writes
+            for c_ in [fn.cls] + [a_ for a_ in prog.ancestors(fn.cls) if isinstance(a_, ClassInfo) and a_ is not fn.cls]:
+                for st_ in c_.node.body:
+                    tg_ = st_.targets[0] if isinstance(st_, ast.Assign) and len(st_.targets) == 1 else \
+                        st_.target if isinstance(st_, ast.AnnAssign) and st_.value is not None else None
+                    if isinstance(tg_, ast.Name) and tg_.id == recv.attr and isinstance(st_.value, ast.Dict) and st_.value.keys and \
+                            all(k is not None for k in st_.value.keys):
+                        syms_ = [prog.resolve_expr_symbol(c_.module, k) if isinstance(k, (ast.Name, ast.Attribute)) else None
+                                 for k in st_.value.keys]
+                        if all(isinstance(x, tuple) and x[0] == 'enum_member' for x in syms_) and len({x[1].fq for x in syms_}) == 1:
+                            en_ = syms_[0][1]
+                            written = any(isinstance(y, ast.Attribute) and y.attr == recv.attr and (
+                                isinstance(y.ctx, (ast.Store, ast.Del)) or
+                                (isinstance(prog.parent(y), ast.Subscript) and isinstance(prog.parent(y).ctx, (ast.Store, ast.Del))) or
+                                (isinstance(prog.parent(y), ast.Attribute) and prog.parent(y).attr in
+                                 ('pop', 'popitem', 'clear', 'update', 'setdefault')))
+                                for m_ in prog.modules.values() for y in ast.walk(m_.tree))
+                            if {x[2] for x in syms_} == set(en_.enum_members) and not written and \
+                                    strip_opt(self.abs.type_at(fn, idx, node)) == ('cls', en_.fq) and self.abs.at(fn, idx, node).none == NO:
+                                return (f'`{recv.attr}` is a class-level constant table with an entry for every member of {en_.name}, '
+                                        f'looked up with a {en_.name}')
+            return None
         if not isinstance(recv, ast.Name):
             return None
         name = recv.id
@@ -1253,7 +1277,7 @@ class ExcAnalysis:
         idx = params.index(pname)
         notes = []
         for cfn, cnode, _k in callers:
-            j = idx - offset
+            j = idx - (offset if isinstance(cnode.func, ast.Attribute) else 0)      # (a plain call passes self explicitly)
             arg = cnode.args[j] if 0 <= j < len(cnode.args) else next(
                 (k.value for k in cnode.keywords if k.arg == pname), None)
             if arg is None:
@@ -1771,6 +1795,8 @@ class ExcAnalysis:
             return binding
         offset = 1 if (callee.cls is not None and not callee.is_static and callee.parent is None and pnames
                        and pnames[0] in ('self', 'cls')) else 0
+        if offset and ctor is None and isinstance(cnode, ast.Call) and not isinstance(cnode.func, ast.Attribute):
+            offset = 0          # the plain function taken out of a table / a name: `self` is passed explicitly
         if ctor is not None:
             offset = 1
         for i, a in enumerate(cnode.args):
